@@ -152,7 +152,7 @@ pub fn generate(run_seed: u64) -> QueueSpec {
         // free-form: every task runs a random script; a close is placed somewhere so that
         // blocked tasks are eventually released (most of the time).
         let nt = c.range(2, 8) as u32;
-        let oversize = c.pct(10);
+        let oversize = c.pct(15);
         for t in 0..nt {
             let n = w.range(1, 10);
             let producerish = w.pct(50);
@@ -167,7 +167,10 @@ pub fn generate(run_seed: u64) -> QueueSpec {
                 let op = if producerish {
                     match r {
                         0..=49 => {
-                            if size > cap {
+                            // an item larger than the whole queue: since fix 540125b a blocking push
+                            // admits it once the queue is empty, so it is an ordinary operation now
+                            // (every other r keeps the non-blocking form of the first version)
+                            if size > cap && r % 2 == 0 {
                                 Op::TryPush { prio, size, uid: next_uid() }
                             } else {
                                 Op::Push { prio, size, uid: next_uid() }
